@@ -6,6 +6,14 @@ props = [json.loads(l) for l in open(os.path.join(V, "properties.jsonl"))]
 ids = [p["id"] for p in props]
 
 CLAIMS = {
+ "C12": dict(cat="other", tech="metadata-key agreement between savefile-path lookups (AST, literal and literal-prefix keys) and the keys read off the macro expansions in witness units; vararg-count discipline of rtosc_v2args call sites; OSC-format rule on the captured replies",
+    text="Narrow structural claim: the keys the save/load pipeline looks up are exactly keys the port macros can emit (a renamed key on either side silently drops defaults, option maps, blob types or enablement); each caller of rtosc_v2args passes the number of value-carrying tags of the same string or guards a single unpack by has_reserved on the same tag (the capture of value-less replies such as a toggle's \"T\" depends on it - the defect fixed here); the replies the capture consumes are type-correct for every macro kind x field type. Does not decide that save->load reproduces the state, minimality, or rejection of malformed files.",
+    note="Trusted: clang AST, witness/meta_matrix.cpp + witness/sugar_matrix.cpp. Keys computed at run time are checked through their literal prefix only.",
+    ref="DESIGN.md 2 C12"),
+ "C13": dict(cat="other", tech="set equality between the key literals scan_deps iterates over and the keys emitted by the dependency macros (witness expansion); separator agreement",
+    text="Narrow structural claim: the dependency kinds the sorter reads are exactly the kinds the macros can declare (enabled by / depends / default depends), each used as the metadata lookup key, and dependency lists are split at the separator rDepends emits. Necessary for order independence: an unread kind is applied in file order. Path resolution, transitive edges and the topological sort are not decided.",
+    note="Trusted: clang AST, witness/meta_matrix.cpp.",
+    ref="DESIGN.md 2 C13"),
  "C19": dict(cat="other", tech="AST sentinel-discipline rule (fields whose none value is -1 never converted to bool), finite-domain enumeration of the conditions guarding learn-queue decrements, finite-domain evaluation of the setSlotSub clamp, OSC-format rule, metadata-key agreement with the range macros",
     text="Narrow structural claim: the slot fields using -1 as `none` are discovered from the stores and must never be tested by truthiness; every decrement of a queue position / learn_queue_len must sit under conditions that, enumerated over positions {-1,1,2,3} per slot expression, cannot hold while the reference slot is -1 (the exact history class of the defect fixed here: clearing an idle slot while another waits); setSlotSub's clamp evaluated around the bounds is clamp(v,min,max), precedes the emit and only monotone functions follow; emit calls are type-correct; the metadata keys read are the ones rLinear/rLog/rLogWithLogmin emit. Does not decide linearity of the mapping or queue order over whole histories.",
     note="Trusted: clang AST, sa/fdeval.py, witness/meta_matrix.cpp. The sentinel convention is read off the current tree (>= 6 stores of -1).",
